@@ -145,6 +145,11 @@ class BuildAssembly(Assembly):
         for i, scffld in enumerate(ordered_scaffolds):
             keep_start = i == 0
             keep_end = i == last_i
+            if frgmnt.strand != 1:
+                # Scaffolds are ordered along the contig, but the flags of
+                # trim_fragment() refer to the ends of the OverlapResult,
+                # where a reverse strand contig runs backwards.
+                keep_start, keep_end = keep_end, keep_start
             sub_fragments.append(scffld.trim_fragment(frgmnt, keep_start, keep_end))
         self.qc_sub_fragments(fnd, sub_fragments)
 
